@@ -1,5 +1,6 @@
 import Iauthd.Proto.Step
 import Iauthd.Proto.Hist
+import Iauthd.Proto.Spec01
 import Drv.Util
 import Drv.TagRes
 /-
@@ -117,8 +118,22 @@ structure JSt where
   mods : Nat := 0
   conf : Config := {}
   t : Tracker := {}
+  t1 : Iauthd.Proto.Spec01.T1 := {}   -- the reader of the proved predicate (C01_history)
   started : Bool := false
   skip : Bool := false        -- trace outside the judge's format (multi-line chunk)
+
+/-- run the proved reader over the same step and add its verdict: a step it rejects is a C01
+    violation even if the trace judge missed it; a step only the trace judge rejects is reported
+    as a disagreement between the two readings -/
+def withSpec01 (j : JSt) (raw : Option Bytes) (outs : List Bytes) (v : List Hist.Violation) :
+    JSt × List Hist.Violation :=
+  let t1 := Iauthd.Proto.Spec01.step j.t1 raw outs
+  let specBad := !t1.ok
+  let trackBad := v.any (·.prop == "C01")
+  let v := if specBad && !trackBad then v ++ [⟨"C01", "the reader of the proved predicate (Spec01) rejects this step"⟩]
+           else if trackBad && !specBad then v ++ [⟨"C01", "trace judge and Spec01 disagree on this step"⟩]
+           else v
+  ({ j with t1 := { t1 with ok := true } }, v)
 
 def unhexLines (h : String) : List Bytes :=
   let data := Bytes.ofHex h
@@ -153,6 +168,7 @@ def judgeOp (j : JSt) (op : String) (rec : String) : JSt × String :=
       let (t, v) := onOutputs t {} outs
       -- the banner must come first
       let v := if (outs.headD []).take 3 == b "V :" then v else v ++ [⟨"C09", "the first line is not the version banner"⟩]
+      let (j, v) := withSpec01 { j with t1 := {} } none outs v
       ({ j with t := t, started := true }, fmtViol v)
     | "in" :: h :: extra =>
       let chunk := Bytes.ofHex h
@@ -187,6 +203,7 @@ def judgeOp (j : JSt) (op : String) (rec : String) : JSt × String :=
             | some n => if n != t.live.length then v ++ [⟨"C10", s!"{n} requests reported in use, {t.live.length} clients are live"⟩] else v
             | none => v
           else v) v
+        let (j, v) := withSpec01 j (some raw) outs v
         ({ j with t := t }, fmtViol v)
     | ["timeout", id] =>
       if j.skip then (j, "skip") else
@@ -194,6 +211,7 @@ def judgeOp (j : JSt) (op : String) (rec : String) : JSt × String :=
       let outs := match rf with | "out" :: oh :: _ => unhexLines oh | _ => []
       let t := onTimeout j.t (id.toInt?.getD 0) fired
       let (t, v) := onOutputs t {} outs
+      let (j, v) := withSpec01 j none outs v
       ({ j with t := t }, fmtViol (v ++ stuck t))
     | ["elapse"] =>
       if j.skip then (j, "skip") else
@@ -206,6 +224,7 @@ def judgeOp (j : JSt) (op : String) (rec : String) : JSt × String :=
       let names := if names.contains "*" then j.t.live.map (fun i => toString i.id) else names
       let t := names.foldl (fun t n => match n.toInt? with | some id => onTimeout t id true | none => t) j.t
       let (t, v) := onOutputs t {} outs
+      let (j, v) := withSpec01 j none outs v
       ({ j with t := t }, fmtViol (v0 ++ v ++ stuck t))
     | "reload" :: _ :: rest =>
       let (cfg, bad) := parseConfig rest
